@@ -29,7 +29,9 @@ def main():
         if c['accept']:
             ll = A.parse_listing(c['real']['lines'])
             if ll is None:
-                ck.broken.append('cannot read the listing hexasm printed for source %r' % c['src'][:100])
+                bad = next((l for l in c['real']['lines'] if l.startswith('L ') and A.parse_listing([l]) is None), '')
+                ck.violation('a listing line does not show what the property requires (offset, mnemonic, operand value in parentheses for labels, size): %r' % bad,
+                             {'source': c['src'].decode('latin1')[:4000], 'line': bad}, tags={'kind': 'listing-line'})
                 continue
             ocases.append({'prog': [], 'file': c['file'], 'listing': ll, 'use_syms': False})
             meta.append(('asm', c['src'].decode('latin1'), c['real']['lines']))
